@@ -63,6 +63,30 @@ func checkC15(c *Ctx, r *Report) {
 		})
 		return ok
 	}
+	// the same through helpers of the package the mutator calls (two levels)
+	deep := func(f func(*ssa.Function, string) bool) func(*ssa.Function, string) bool {
+		return func(fn *ssa.Function, field string) bool {
+			seen := map[*ssa.Function]bool{}
+			var rec func(g *ssa.Function, d int) bool
+			rec = func(g *ssa.Function, d int) bool {
+				if seen[g] || d > 2 {
+					return false
+				}
+				seen[g] = true
+				if f(g, field) {
+					return true
+				}
+				for _, cs := range callsIn(g) {
+					if sf := cs.Instr.Common().StaticCallee(); sf != nil && sf.Pkg == fn.Pkg && len(sf.Blocks) > 0 && rec(sf, d+1) {
+						return true
+					}
+				}
+				return false
+			}
+			return rec(fn, 0)
+		}
+	}
+	ins, del = deep(ins), deep(del)
 	if fn := r.MustFunc(r1, "(*"+tM+").ReservePieces"); fn != nil {
 		r.Check(ins(fn, fReq) && ins(fn, fByPeer), r1, fn, "insert into both", nil, "requests and requestsByPeer", "a reservation is recorded in only one of the two maps")
 	}
@@ -144,34 +168,7 @@ func checkC15(c *Ctx, r *Report) {
 	checkLockRows(c, r, r3, []string{pkgPR2}, []LockRow{{Struct: tM, Mutex: "RWMutex", Fields: []string{"requests", "requestsByPeer"}, Ctors: []string{pkgPR2 + ".NewManager"}}})
 
 	r4 := r.Rule("R4", "E-ORDER/loop", "validRequest: every return inside the scan over the piece's requests is the constant false, on a path where the request is pending and not expired and (same peer or duplicates not allowed); the only true return follows the completed scan", 2)
-	if vr := r.MustFunc(r4, "(*"+tM+").validRequest"); vr != nil {
-		var loop *RangeLoop
-		for _, l := range rangeLoops(vr) {
-			if mentionsField(l.Ranged, fReq) {
-				loop = l
-			}
-		}
-		if loop == nil {
-			r.Bad(r4, vr, "scan", nil, "validRequest does not scan the requests of the piece")
-		} else {
-			for _, ret := range returnsOf(vr) {
-				inLoop := ret.Block() == loop.Body || loop.Body.Dominates(ret.Block())
-				if inLoop {
-					okc := isBoolConst(ret.Results[0], false)
-					pend := guardedBy(ret, eqFact(func(b *ssa.BinOp) bool { return mentionsField(b.X, pkgPR2+".Request.Status") || mentionsField(b.Y, pkgPR2+".Request.Status") }, true))
-					live := guardedBy(ret, func(cond ssa.Value, val bool) int {
-						if isCallTo(cond, "(*"+tM+").expired") {
-							return tern(val, -1, 1)
-						}
-						return 0
-					})
-					r.Check(okc && pend && live, r4, vr, "return inside scan", ret, "false, for a pending unexpired request", "the validity predicate decides inside its scan with something else than 'false for a live request': later live requests for the piece are not examined, so a piece can get two unexpired requests")
-				} else {
-					r.Check(isBoolConst(ret.Results[0], true) && loop.completedBefore(ret), r4, vr, "return after scan", ret, "true after all requests were examined", "the validity predicate returns after the scan with something else than true, or before the scan completed")
-				}
-			}
-		}
-	}
+	rulesC15Validity(c, r, r4, fReq)
 
 	r5 := r.Rule("R5", "E-ORDER/loop", "ClearPeer's scans over the per-piece lists have no early exit (every request of the peer is removed, not just the first)", 1)
 	if cp != nil {
@@ -190,7 +187,7 @@ func checkC15(c *Ctx, r *Report) {
 	}
 
 	r6 := r.Rule("R6", "flow", "requestQuota starts from the agent/origin limit selected by the peer kind and decrements for pending ∧ ¬expired requests of the peer; GetFailedRequests reports requests that are not pending or are expired", 2)
-	if rq := r.MustFunc(r6, "(*"+tM+").requestQuota"); rq != nil {
+	if rq := c15QuotaFunc(c, r, r6); rq != nil {
 		usesBoth := false
 		instrsOf(rq, func(in ssa.Instruction) {
 			if phi, ok := in.(*ssa.Phi); ok {
@@ -208,43 +205,12 @@ func checkC15(c *Ctx, r *Report) {
 				}
 			}
 		})
-		dec := false
-		instrsOf(rq, func(in ssa.Instruction) {
-			b, ok := in.(*ssa.BinOp)
-			if !ok || b.Op != token.SUB {
-				return
-			}
-			if k, isK := intConst(b.Y); !isK || k != 1 {
-				return
-			}
-			pend := guardedBy(b, eqFact(func(bb *ssa.BinOp) bool { return mentionsField(bb.X, pkgPR2+".Request.Status") }, true))
-			live := guardedBy(b, func(cond ssa.Value, val bool) int {
-				if isCallTo(cond, "(*"+tM+").expired") {
-					return tern(val, -1, 1)
-				}
-				return 0
-			})
-			if pend && live {
-				dec = true
-			}
-		})
-		r.Check(usesBoth && dec && mentionsFieldAnywhere(rq, fByPeer), r6, rq, "quota computation", nil, "limit by peer kind, minus live requests", "the quota is not (limit by peer kind) minus (pending, unexpired requests of the peer)")
+		dec, why := c15QuotaDecrement(c, rq)
+		r.Check(usesBoth && dec && mentionsFieldAnywhere(rq, fByPeer), r6, rq, "quota computation", nil, "limit by peer kind, minus live requests", "the quota is not (limit by peer kind) minus (pending, unexpired requests of the peer): "+why)
 	}
 	if gf := r.MustFunc(r6, "(*"+tM+").GetFailedRequests"); gf != nil {
-		ok := false
-		instrsOf(gf, func(in ssa.Instruction) {
-			cl, isC := in.(*ssa.Call)
-			if !isC || calleeName(cl.Common()) != "builtin.append" {
-				return
-			}
-			if guardedBy(cl, eqFact(func(b *ssa.BinOp) bool {
-				_, isPhi := b.X.(*ssa.Phi)
-				return isPhi || mentionsField(b.X, pkgPR2+".Request.Status")
-			}, false)) {
-				ok = true
-			}
-		})
-		r.Check(ok && len(callsInNamed(gf, "(*"+tM+").expired")) > 0, r6, gf, "failed report", nil, "status != pending (expired counted)", "the failed-request report is not restricted to non-pending or expired requests")
+		ok, why := c15FailedReport(c, gf)
+		r.Check(ok, r6, gf, "failed report", nil, "a request is reported iff ¬pending ∨ expired", "the failed-request report does not list exactly the requests that are not pending or have expired: "+why)
 	}
 }
 
